@@ -93,7 +93,7 @@ func (w *srvWorld) probeC03() {
 			if m.Holding && m.Kind == mCall {
 				heldCall = true
 			}
-			if m.executable() && msg.Arrive >= 0 && m.Enter < 0 && !(m.Kind == mRPCInfo && w.replySeq(m.ID) >= 0) {
+			if m.executable() && msg.Arrive >= 0 && m.Enter < 0 && !(m.Kind == mRPCInfo && w.repliedWithResult(m.ID)) {
 				waiting = true
 			}
 		}
@@ -185,7 +185,7 @@ func (w *srvWorld) provenWaiter() *member {
 	lastStarted := -1
 	for _, msg := range w.msgs {
 		for _, m := range msg.Members {
-			if m.Enter >= 0 || (m.Kind == mRPCInfo && w.replySeq(m.ID) >= 0) {
+			if m.Enter >= 0 || (m.Kind == mRPCInfo && w.repliedWithResult(m.ID)) {
 				lastStarted = msg.Idx
 			}
 		}
